@@ -47,6 +47,21 @@ def primeLoop (other : Array Nat) : Nat → Nat → Nat → Nat → Nat
     if shift = 0 then primeLoop other fuel (bitset >>> 1) (i+1) (acc &&& other[i]!)
     else primeLoop other fuel (bitset >>> shift) (i+shift) acc
 
+/-- a `while var:` loop given by its body as a state transformer on `(var, i, acc)`; `fuel` bounds the
+iterations. Used to run the loop bodies that harness/extract.py regenerates from `matrices.py`. -/
+def iterLoop (step : Nat → Nat → Nat → Nat × Nat × Nat) : Nat → Nat → Nat → Nat → Nat
+  | 0, _, _, acc => acc
+  | fuel+1, v, i, acc =>
+    if v = 0 then acc else
+    let (v', i', acc') := step v i acc
+    iterLoop step fuel v' i' acc'
+
+/-- the loop body of the model as a state transformer -/
+def canonStep (other : Array Nat) (bitset i acc : Nat) : Nat × Nat × Nat :=
+  let shift := tz bitset
+  if shift = 0 then (bitset >>> 1, i + 1, acc &&& other[i]!)
+  else (bitset >>> shift, i + shift, acc)
+
 /-- `prime(bitset)` of a `Vectors` paired with `other`, `sup = other.BitSet.supremum` -/
 def primeOf (other : Array Nat) (sup : Nat) (bitset : Nat) : Nat :=
   primeLoop other bitset bitset 0 sup
